@@ -277,13 +277,15 @@ func NewWorld(cfg WorldCfg) (*World, error) {
 			st.AddConstraint(boltz.NewSystemEntityEnforcementConstraint(st))
 		}
 	}
-	// children
+	// children; their bucket paths are built by appending to one shared prefix that has spare capacity, the way
+	// configuration code derives sibling paths from a common root
+	childPrefix := make([]string, 0, 4)
 	for _, cc := range cfg.Children {
 		parent := w.Stores[cc.Parent]
 		cc := cc
 		def := boltz.StoreDefinition[*Kid]{
 			EntityStrategy:  &kidStrategy{parent: parent, typ: cc.Parent},
-			BasePath:        []string{"ext_" + cc.Name},
+			BasePath:        append(childPrefix, "ext_"+cc.Name),
 			Parent:          parent,
 			EntityNotFoundF: notFoundF(cc.Parent),
 			ParentMapper: func(e boltz.Entity) boltz.Entity {
